@@ -241,7 +241,7 @@ def run_for(ex, s, env, spec=None, label=None):
     for inv in spec.get("invariant", []):
         ex.assume(ex.to_bool(C.eval_spec_expr(ex, inv, inv_env(done, rest, idx))))
     for h in spec.get("hints", []):
-        ex.assume(ex.to_bool(C.eval_spec_expr(ex, h, inv_env(done, rest, idx))))
+        C.assume_hint(ex, h, inv_env(done, rest, idx), s.lineno, f"loop{k}:hint")
     # intermediate assertions (proved here, then available on every path through the body)
     for j, h in enumerate(spec.get("asserts", [])):
         ex.oblige("inv", f"loop{k}:assert[{j}]",
@@ -266,7 +266,7 @@ def run_for(ex, s, env, spec=None, label=None):
     ndone = S.concat(done, S.cons(S.head(rest), S.nil))
     nrest = S.tail(rest)
     for h in spec.get("step_hints", []):
-        ex.assume(ex.to_bool(C.eval_spec_expr(ex, h, inv_env(done, rest, idx))))
+        C.assume_hint(ex, h, inv_env(done, rest, idx), s.lineno, f"loop{k}:step-hint")
     for j, inv in enumerate(spec.get("invariant", [])):
         g = ex.to_bool(C.eval_spec_expr(ex, inv, inv_env(ndone, nrest, idx + 1)))
         ex.oblige("inv", f"loop{k}:preserve[{j}]", g, s.lineno, note=inv)
